@@ -98,7 +98,7 @@ def gen_cells(ck):
                 "acq_optimizer_freq": rng.choice([1, 1, 10])}
         batches = [batch] if not vary else [rng.randint(1, 8) for _ in range(n_rounds)]
         script = ac.gen_script(rng, n_rounds, 8, fail_p=rng.choice([0.0, 0.2, 0.5]), batches=batches,
-                               again_p=rng.choice([0.0, 0.0, 0.2, 0.4]))
+                               again_p=rng.choice([0.0, 0.0, 0.2, 0.4]), moo=rng.random() < 0.08)
         if rng.random() < 0.5:
             for st in script:
                 st["tell"] = [True]  # results of a batch all come back before the next ask
@@ -197,6 +197,12 @@ def _shrink_job(args):
         st["objs"] = [o if not isinstance(o, str) else 1.0 for o in st["objs"]]
     if sc2 != script and ok(cell, spec, sc2):
         script = sc2
+    # every ask followed by a tell
+    sc3 = json.loads(json.dumps(script))
+    for st in sc3:
+        st.pop("no_tell", None)
+    if sc3 != script and ok(cell, spec, sc3):
+        script = sc3
     return _req(cell, script), {"cell": cell, "spec": spec, "script": script}
 
 
@@ -204,6 +210,8 @@ def _req(cell, script):
     req = {k: cell[k] for k in ("surrogate", "strategy", "filter_failures") if cell.get(k) != BASE[k]}
     if any(isinstance(o, str) for st in script for o in st["objs"]):
         req["failures-told"] = True
+    if any(st.get("no_tell") for st in script):
+        req["ask-again-before-tell"] = True
     return req
 
 
@@ -213,9 +221,11 @@ def _sat(case, req):
 
 
 def _req_tags(req):
-    tags = [f"{k}={v}" for k, v in req.items() if k != "failures-told"]
+    tags = [f"{k}={v}" for k, v in req.items() if k not in ("failures-told", "ask-again-before-tell")]
     if req.get("failures-told"):
         tags.append("failures-told")
+    if req.get("ask-again-before-tell"):
+        tags.append("ask-again-before-tell")
     return ",".join(tags) if tags else "baseline"
 
 
@@ -254,7 +264,7 @@ def run(ck):
     cells = _load_corpus()
     n_corpus = len(cells)
     cells += gen_cells(ck)
-    recs = ac.run_cells(ck, cells)
+    recs = ac.run_cells(ck, cells, inprocess=[n_corpus + k for k in range(0, 20, 2)])
     reqs, idx = [], []
     for i, ((cell, spec, script, mode), rec) in enumerate(zip(cells, recs)):
         if rec["not_accepted"] or not rec["rounds"]:
